@@ -316,6 +316,17 @@ def run(ck, m):
             ck.ob("R6", timed, len(sel) == 1 and len(sel[0].args) == 4 and same(rt, sel[0].args[3], f"None if timeout < 0 else timeout - {dv}"),
                   f"select() must wait at most the remaining time `timeout - {dv}` (None only for an infinite timeout); found `{norm(expand(rt, sel[0].args[3])) if sel and len(sel[0].args) == 4 else None}`", stmt="read_tty: select waits the remaining time only")
             ck.ob("R6", timed, bool(rest) and match_stmt(f"{dv} = monotonic() - {sv}", rest[-1]) is not None, "the elapsed time must be recomputed at the end of every iteration", stmt="read_tty: duration recomputed per iteration")
+            # ... on every way round the loop: from each select() no path returns to the loop test without passing the recomputation (a `continue` on a
+            # timed-out select would re-enter select with the stale elapsed time, for ever)
+            from tiv.cfg import CFG as _CFG6, fmt_path as _fmt6
+            g6 = _CFG6(rt)
+            upd6 = [n_ for n_ in g6.nodes if n_.kind == "stmt" and n_.ast is not None and match_stmt(f"{dv} = monotonic() - {sv}", n_.ast) is not None]
+            head6 = [n_ for n_ in g6.nodes if n_.kind == "test" and (n_.ast is timed.test or n_.ast is timed)]
+            for c6 in sel:
+                s6 = g6.nodes_of(enclosing_stmt(c6)) or g6.nodes_of(c6)
+                p6 = g6.search(s6, lambda n_: n_ in head6, avoid=lambda n_: n_ in upd6, edge_ok=lambda a_, lab, d_: not lab.startswith(("e:", "p:"))) if head6 and s6 else None
+                ck.ob("R6", enclosing_stmt(c6), p6 is None, f"after this select() the loop can come round again without recomputing the elapsed time ({_fmt6(p6) if p6 else ''}): the next wait uses a stale "
+                      "remaining time, and a read that must end by timeout never ends", stmt="read_tty: elapsed time recomputed on every way round the loop")
             ck.ob("R6", timed, any(isinstance(c, ast.Call) and norm(c) == "os.read(_tty_fd, 1)" for c in walk_local(timed)), "the timed loop reads byte-wise so that the stop predicate sees every byte", stmt="read_tty: byte-wise reads in the timed loop")
             psel = [c for c in body_walk(rt) if isinstance(c, ast.Call) and call_name(c) == "select" and any(norm(t) == "timeout is None" and b_ for t, b_ in guards(c))]
             ck.expect(bool(psel), "read_tty: no select() under `timeout is None` (non-blocking mode) recognised")
